@@ -378,7 +378,7 @@ Fixpoint nodup_paths (l : list path) : bool :=
 
 Definition wf_fs (f : fsys) : bool :=
   andb (nodup_paths (map fst f))
-       (forallb (fun e => andb (andb (negb (is_dir f (fst e))) (forallb name_ok (fst e))) (content_ok (snd e))) f).
+       (forallb (fun e => andb (negb (is_dir f (fst e))) (forallb name_ok (fst e))) f).
 
 (* include targets that could leave the scratch root (absolute, or more ".." than depth): the model
    treats the root as its own parent, the real scratch directory is not the file-system root *)
@@ -397,6 +397,14 @@ Definition raw_unsafe (depth : nat) (raw : bytes) : bool :=
 Definition file_unsafe (e : path * bytes) : bool :=
   existsb (fun l => match include_of_line l with
                     | Some raw => raw_unsafe (List.length (fst e) - 1) raw
+                    | None => false
+                    end) (split_inclusive (snd e)).
+
+(* `{a} {b.mec}`: braces inside the target — the property text does not say whether such a line is a
+   stand-alone include; the code treats it as one (target "a} {b.mec") *)
+Definition file_brace (e : path * bytes) : bool :=
+  existsb (fun l => match include_of_line l with
+                    | Some raw => existsb (fun a => orb (Ascii.eqb a c_lbrace) (Ascii.eqb a c_rbrace)) raw
                     | None => false
                     end) (split_inclusive (snd e)).
 
@@ -419,6 +427,45 @@ Definition res_eqb (a b : res) : bool :=
   | _, _ => false
   end.
 
+(* The property does not say which error wins when the graph below the root has both a cycle and a missing
+   target (the code reports the one met first in depth-first line order, and so does [expand]).  An error of
+   the other class is accepted when the graph really has that defect: computed here by a reachability closure. *)
+Definition targets_of (f : fsys) (p : path) : list path :=
+  match lookup f p with
+  | Some src => flat_map (fun raw => match resolve f (removelast p) raw with Some q => [q] | None => [] end)
+                         (active_includes (split_inclusive src) None)
+  | None => []
+  end.
+
+Fixpoint add_new (xs : list path) (s : list path) : list path :=
+  match xs with
+  | [] => s
+  | x :: r => if mem_path x s then add_new r s else add_new r (s ++ [x])%list
+  end.
+
+Fixpoint closure (n : nat) (f : fsys) (s : list path) : list path :=
+  match n with
+  | O => s
+  | S n' => closure n' f (add_new (flat_map (targets_of f) s) s)
+  end.
+
+Definition reachable (f : fsys) (p : path) : list path := closure (List.length f) f [p].
+
+Definition dangling_named (f : fsys) (msg : bytes) (q : path) : bool :=
+  match lookup f q with
+  | Some src => existsb (fun raw => match resolve f (removelast q) raw with
+                                    | None => is_missing_err raw msg
+                                    | Some _ => false
+                                    end) (active_includes (split_inclusive src) None)
+  | None => false
+  end.
+
+Definition alt_missing (f : fsys) (root : path) (msg : bytes) : bool :=
+  existsb (dangling_named f msg) (reachable f root).
+
+Definition alt_cycle (f : fsys) (root : path) : bool :=
+  existsb (fun q => existsb (fun t => mem_path q (reachable f t)) (targets_of f q)) (reachable f root).
+
 Definition judge_fs (f : fsys) (root : path) (o : obs20) : sx :=
   match expand_root f root, o with
   | Ok t, O_ok t' =>
@@ -433,10 +480,15 @@ Definition judge_fs (f : fsys) (root : path) (o : obs20) : sx :=
       else v_bad "wrong-text" (Lx [Ax "ok"; Qx (s_of t)])
   | Ok t, _ => v_bad "expected-text" (Lx [Ax "ok"; Qx (s_of t)])
   | ErrCircular, O_err _ m =>
-      if is_circular_err m then v_ok "circular" else v_bad "expected-circular-error" (Ax "circular")
+      if is_circular_err m then v_ok "circular"
+      else if alt_missing f root m then v_ok "missing-other-order"
+      else v_bad "expected-circular-error" (Ax "circular")
   | ErrCircular, _ => v_bad "expected-circular-error" (Ax "circular")
   | ErrMissing raw, O_err _ m =>
-      if is_missing_err raw m then v_ok "missing" else v_bad "expected-include-failed" (Lx [Ax "missing"; Qx (s_of raw)])
+      if is_missing_err raw m then v_ok "missing"
+      else if andb (is_circular_err m) (alt_cycle f root) then v_ok "circular-other-order"
+      else if alt_missing f root m then v_ok "missing-other-order"
+      else v_bad "expected-include-failed" (Lx [Ax "missing"; Qx (s_of raw)])
   | ErrMissing raw, _ => v_bad "expected-include-failed" (Lx [Ax "missing"; Qx (s_of raw)])
   | OutOfFuel, _ => Lx [Ax "internal"; Ax "out-of-fuel"]
   end.
@@ -448,7 +500,9 @@ Definition judge_include (x : sx) : sx :=
       | None => v_malformed
       | Some (f, root) =>
           if andb (wf_fs f) (match lookup f root with Some _ => true | None => false end) then
-            if existsb file_unsafe f then v_adv "escapes-root"
+            if negb (forallb (fun e => content_ok (snd e)) f) then v_adv "non-ascii"
+            else if existsb file_unsafe f then v_adv "escapes-root"
+            else if existsb file_brace f then v_adv "brace-in-target"
             else if res_eqb (expand_root f root) (expand_buf (S (List.length f)) f root []) then
                    judge_fs f root (decode_obs20 o)
                  else Lx [Ax "internal"; Ax "buffered-differs"]
